@@ -285,7 +285,14 @@ P("C14", "proof", "Lean 4 theorems (UTF-8 validity is preserved by every byte-le
   "strip_prefix hand out valid strings, and push (incl. the verbatim rebuild), push_checked, pop, set_file_name, "
   "set_extension, normalize and with_encoding return valid buffers — hence validity after every finite mutation "
   "history with valid arguments (mutations_valid). This is exactly the invariant the from_utf8_unchecked / "
-  "as_mut_vec code of the UTF-8 wrappers needs.",
+  "as_mut_vec code of the UTF-8 wrappers needs. "
+  "The two algorithms the UTF-8 family does NOT delegate have a character-level model of their own (Spec/Chars.lean: the "
+  "characters of a string, their code points, rsplit_file_at_dot over an arbitrary element type, validity against the "
+  "regenerated char tables), compared with Utf8Path::file_stem / extension / is_valid on every run (u8dot / u8valid ops), "
+  "and are proved equal to the byte family's on every valid string (Props/C14b): splitting the characters at the last "
+  "character `.` = splitting the bytes at the last byte 0x2E (utf8_rsplit_dot_eq_bytes, u8StemExt_eq); no character in the "
+  "char table = no byte in the byte table (utf8_name_valid_eq_bytes, u8IsValid_eq), because a character is one ASCII byte or "
+  "a block of non-ASCII bytes with a code point >= 128 (chars_isChar, IsChar.codepoint_ge).",
   "What no theorem carries: that each of the ~40 UTF-8 wrapper methods calls the right byte method and adds nothing "
   "of its own (delegation), and that nothing panics. That is decided by the correspondence: every UTF-8 operation is "
   "run next to its byte twin (identical transcripts, every &str re-validated with from_utf8, catch_unwind), on "
@@ -295,8 +302,11 @@ P("C14", "proof", "Lean 4 theorems (UTF-8 validity is preserved by every byte-le
             "TP.C14.new_valid", "TP.C14.comps_bytes_valid", "TP.C14.remaining_valid", "TP.C14.parent_valid",
             "TP.C14.file_name_valid", "TP.C14.stem_ext_valid", "TP.C14.strip_prefix_valid", "TP.C14.push_valid",
             "TP.C14.push_checked_valid", "TP.C14.pop_valid", "TP.C14.set_file_name_valid", "TP.C14.set_extension_valid",
-            "TP.C14.normalize_valid", "TP.C14.with_encoding_valid", "TP.C14.mutations_valid"],
-  modules=["TypedPathVerif.Props.SurfaceUtf8", "TypedPathVerif.Lemmas.Utf8"],
+            "TP.C14.normalize_valid", "TP.C14.with_encoding_valid", "TP.C14.mutations_valid",
+            "TP.C14b.chars_flatten", "TP.C14b.chars_isChar", "TP.C14b.IsChar.codepoint_ge", "TP.C14b.rsplitDot_eq_rsplitAt",
+            "TP.C14b.utf8_rsplit_dot_eq_bytes", "TP.C14b.utf8_stem_ext_eq_bytes", "TP.C14b.u8StemExt_eq",
+            "TP.C14b.utf8_name_valid_eq_bytes", "TP.C14b.utf8_unix_name_valid", "TP.C14b.utf8_windows_name_valid", "TP.C14b.u8IsValid_eq"],
+  modules=["TypedPathVerif.Props.SurfaceUtf8", "TypedPathVerif.Lemmas.Utf8", "TypedPathVerif.Props.C14b"],
   rule="strings over {/ \\ . : a é 日 😀 ? C} + prefix seeds with non-ASCII payloads + random; non-trivial = multi-byte character and >= 2 components", design_ref="§5 C14")
 
 P("C15", "translation_validation", "whole-family method transcripts: typed / UTF-8 typed / platform / UTF-8 platform wrappers vs the wrapped concrete types, borrowed and owned, variant tag after every call + Lean theorems for the derive rule + model differential; thorough tier: measured function coverage of src/typed by the harness",
